@@ -178,7 +178,9 @@ theorem insertOne_eq {a : Slots α} {hi idx : Nat} (h1 : idx < hi) (h2 : hi ≤ 
     insertOne a hi (idx : Int) x = some (a.take idx ++ x :: (a.drop idx).take (hi - idx - 1) ++ a.drop hi) := by
   have e1 : toIdx (TreeSlots.insertOneDstLo idx) = some (idx + 1) := toIdx_eq (by simp [TreeSlots.insertOneDstLo])
   have e2 : toIdx (TreeSlots.insertOneSrcLo idx) = some idx := toIdx_eq (by simp [TreeSlots.insertOneSrcLo])
-  simp only [insertOne, e1, e2, toIdx_natCast, Option.bind_some, bind]
+  -- both statements of `insertOne` are in the source (generated presence facts)
+  simp only [insertOne, e1, e2, toIdx_natCast, Option.bind_some, bind, TreeSlots.insertOneShifts,
+    TreeSlots.insertOneWrites, if_true]
   rw [copySlots_eq (by omega) h2 (by omega) h2]
   have hm : min (hi - (idx + 1)) (hi - idx) = hi - idx - 1 := by omega
   simp only [hm, Option.bind_some, h1, if_true]
